@@ -181,7 +181,8 @@ def finish(ctx, fam, scripts, trace_module, mutants, features, trace_cfg=None, e
         rule=fam['rule'],
         script_sources=srcs,
         deep_path_counters=feat,
-        rejected_traces=len(bad),
+        rejected_traces=len({b['tid'] for b in bad}),
+        rejected_events=len(bad),
         rejected_foreign=res['foreign'],
         foreign_rules=res['foreign_rules'],
         known_findings_hit=sorted({k['id'] for k in res['known']}),
